@@ -3,10 +3,13 @@
 //!           nreq blocks [max_i; (okind payload gated ready) x L]; (op a)*]
 //! op 1 Poll a | 2 Advance a ms | 3 Complete a | 4 MakeReady a
 //! durations: below 2^40 milliseconds, 2^40 + n = n nanoseconds
+//! pred_mode: mod 4 = predicate; / 4 != 0: attempts beyond the table fail retryably for ever
+//! bkind: bit 0 = token bucket; bkind / 2 = builder route (0 .backoff(FnInterval table), 1 .fixed_backoff(b0),
+//!        2 .exponential_backoff(b0), 3 builder default, 4 RetryLayer::exponential_backoff(), 5 aggressive(), 6 conservative())
 //! ma_mode: bit 0 = per-request max_attempts; ma_mode / 2 = 0 one service per request,
 //!          1 all requests through one Retry handle, 2 through clones of one handle
 //! trace = per event [r; payload; wake mask; balance; deposits; grants; denials]
-//!         ++ per request [ncalls; (start, end|-1)*] ++ [readiness-contract violations]
+//!         ++ per request [ncalls; (start, end|-1)*] ++ [readiness-contract violations; retries started without a prior grant]
 use std::future::Future;
 use std::pin::Pin;
 use std::sync::atomic::{AtomicUsize, Ordering};
@@ -49,6 +52,14 @@ struct PerReq {
 }
 
 struct Shared {
+    /// what attempts beyond the scripted table do: false = Ok(0), true = Err(code k, flag true)
+    tail: bool,
+    /// a budget is configured: every retry must have been granted before it starts
+    budgeted: bool,
+    /// request whose future is being polled, withdrawals granted to each request so far
+    current: Mutex<Option<usize>>,
+    granted: Mutex<Vec<usize>>,
+    ungranted: AtomicUsize,
     per: Mutex<Vec<PerReq>>,
     violations: AtomicUsize,
     t0: u64,
@@ -63,7 +74,8 @@ impl Shared {
         ((now_ns() - self.t0) / 1_000_000) as i128
     }
     fn entry(&self, id: usize, k: usize) -> Entry {
-        self.per.lock().unwrap()[id].entries.get(k).copied().unwrap_or_default()
+        let dflt = if self.tail { Entry { okind: 1, payload: k as i128, gated: 0, ready: 0 } } else { Entry::default() };
+        self.per.lock().unwrap()[id].entries.get(k).copied().unwrap_or(dflt)
     }
 }
 
@@ -153,6 +165,9 @@ impl Service<Req> for Scripted {
             let mut per = sh.per.lock().unwrap();
             let p = &mut per[id];
             let k = p.ncalls;
+            if k >= 1 && sh.budgeted && sh.granted.lock().unwrap()[id] < k {
+                sh.ungranted.fetch_add(1, Ordering::SeqCst); // retry number k without k grants so far
+            }
             p.ncalls += 1;
             p.released = false;
             p.blocked = None;
@@ -189,11 +204,17 @@ impl Service<Req> for Scripted {
 struct Logged {
     inner: Arc<dyn RetryBudget>,
     log: Mutex<Vec<i128>>, // 0 deposit, 1 granted, 2 denied
+    sh: Arc<Shared>,
 }
 
 impl RetryBudget for Logged {
     fn try_withdraw(&self) -> bool {
         let g = self.inner.try_withdraw();
+        if g {
+            if let Some(i) = *self.sh.current.lock().unwrap() {
+                self.sh.granted.lock().unwrap()[i] += 1;
+            }
+        }
         self.log.lock().unwrap().push(if g { 1 } else { 2 });
         g
     }
@@ -209,7 +230,9 @@ impl RetryBudget for Logged {
 type Res = Result<i128, E>;
 
 fn run(s: &[i128]) -> Vec<i128> {
-    let (ma_mode, ma_fixed, pred_mode, bkind) = (zn(s, 0), zn(s, 1), zn(s, 2), zn(s, 3));
+    let (ma_mode, ma_fixed, pred_raw, bkind_raw) = (zn(s, 0), zn(s, 1), zn(s, 2), zn(s, 3));
+    let (pred_mode, tail) = (pred_raw.rem_euclid(4), pred_raw.div_euclid(4) != 0);
+    let (bkind, route) = (bkind_raw.rem_euclid(2), bkind_raw.div_euclid(2));
     let (bmax, binit) = (zn(s, 4).max(0) as usize, zn(s, 5).max(0) as usize);
     let n = zn(s, 6).max(0) as usize;
     let l = zn(s, 7).max(0) as usize;
@@ -221,7 +244,8 @@ fn run(s: &[i128]) -> Vec<i128> {
     let mut maxes = Vec::new();
     for i in 0..n {
         let base = 8 + l + i * blk;
-        maxes.push(if !per_request { ma_fixed.max(0) as usize } else { zn(s, base).max(0) as usize });
+        let dflt = if !per_request { ma_fixed.max(0) as usize } else { zn(s, base).max(0) as usize };
+        maxes.push(match route { 4 => 3, 5 => 5, 6 => 2, _ => dflt });
         let entries = (0..l)
             .map(|k| Entry {
                 okind: zn(s, base + 1 + 4 * k),
@@ -240,10 +264,24 @@ fn run(s: &[i128]) -> Vec<i128> {
 
     let rt = paused_rt();
     rt.block_on(async move {
-        let sh = Arc::new(Shared { per: Mutex::new(per), violations: AtomicUsize::new(0), t0: now_ns(), starting: Mutex::new(None), maxes: maxes.clone() });
-        let mut b = RetryLayer::<Req, E>::builder();
-        b = if !per_request { b.max_attempts(ma_fixed.max(0) as usize) } else { b.max_attempts_fn(|r: &Req| r.max) };
-        b = b.backoff(FnInterval::new(move |a: usize| backoffs.get(a).copied().unwrap_or(Duration::ZERO)));
+        let sh = Arc::new(Shared { tail, budgeted: bkind != 0, current: Mutex::new(None), granted: Mutex::new(vec![0; n]),
+            ungranted: AtomicUsize::new(0), per: Mutex::new(per), violations: AtomicUsize::new(0), t0: now_ns(), starting: Mutex::new(None), maxes: maxes.clone() });
+        let b0 = backoffs.first().copied().unwrap_or(Duration::ZERO);
+        let mut b = match route {
+            4 => RetryLayer::<Req, E>::exponential_backoff(),
+            5 => RetryLayer::<Req, E>::aggressive(),
+            6 => RetryLayer::<Req, E>::conservative(),
+            _ => {
+                let b = RetryLayer::<Req, E>::builder();
+                if !per_request { b.max_attempts(ma_fixed.max(0) as usize) } else { b.max_attempts_fn(|r: &Req| r.max) }
+            }
+        };
+        b = match route {
+            1 => b.fixed_backoff(b0),
+            2 => b.exponential_backoff(b0),
+            3 | 4 | 5 | 6 => b,
+            _ => b.backoff(FnInterval::new(move |a: usize| backoffs.get(a).copied().unwrap_or(Duration::ZERO))),
+        };
         b = match pred_mode {
             0 => b,
             1 => b.retry_on(|e: &E| e.flag),
@@ -252,7 +290,7 @@ fn run(s: &[i128]) -> Vec<i128> {
         };
         let logged = if bkind != 0 {
             let real = RetryBudgetBuilder::new().token_bucket().max_tokens(bmax).initial_tokens(binit).build();
-            Some(Arc::new(Logged { inner: real, log: Mutex::new(Vec::new()) }))
+            Some(Arc::new(Logged { inner: real, log: Mutex::new(Vec::new()), sh: sh.clone() }))
         } else {
             None
         };
@@ -298,7 +336,9 @@ fn run(s: &[i128]) -> Vec<i128> {
                     if !m.alive() {
                         r = 9;
                     } else {
+                        *sh.current.lock().unwrap() = Some(i);
                         let fin = m.poll();
+                        *sh.current.lock().unwrap() = None;
                         if !fin {
                             r = 0;
                         } else if m.panicked {
@@ -350,6 +390,7 @@ fn run(s: &[i128]) -> Vec<i128> {
             for (a, b) in &p.calls { tr.push(*a); tr.push(*b); }
         }
         tr.push(sh.violations.load(Ordering::SeqCst) as i128);
+        tr.push(sh.ungranted.load(Ordering::SeqCst) as i128);
         tr
     })
 }
